@@ -239,6 +239,11 @@ func (e *SpecEnv) binary(n *ast.BinaryExpr) Value {
 	case token.SUB:
 		return IntV{Sub(a, b)}
 	case token.MUL:
+		if e.facts != nil && e.c.defs != nil {
+			for _, f := range e.c.productFacts(a, b) {
+				e.fact(f)
+			}
+		}
 		return IntV{Mul(a, b)}
 	case token.QUO:
 		return IntV{Div(a, b)}
